@@ -25,7 +25,7 @@ def reset_fresh():
 
 
 # ---------------------------------------------------------------- type descriptor parsing
-_TOK = re.compile(r"\s*([A-Za-z_][A-Za-z_0-9.|]*|[\[\]{}:,?])")
+_TOK = re.compile(r"\s*([A-Za-z_][A-Za-z_0-9.|\-]*|[\[\]{}:,?])")
 
 
 def parse_type(text):
@@ -88,7 +88,9 @@ def parse_type(text):
             fs = []
             while peek() != "}":
                 k = eat()
-                if peek() == "?":
+                if k == "?":
+                    k = "?" + eat()
+                elif peek() == "?":
                     eat()
                     k = "?" + k
                 eat(":")
